@@ -2237,4 +2237,131 @@ theorem copy_same_content (w w' : World) (x : Nat) (f i : Addr) (k : Nat) (t : T
   obtain ⟨t', ht', hc'⟩ := mkFrozen_content hm false false k ts hts
   exact ⟨r, t', rfl, ht', hc'.trans hc⟩
 
+/-! ## equal contents flatten identically, whatever the insertion order -/
+
+private theorem eq_of_mem_of_key_eq {α : Type} : ∀ {l : List (Key × α)} {a b : Key × α},
+    (l.map (·.1)).Nodup → a ∈ l → b ∈ l → a.1 = b.1 → a = b := by
+  intro l
+  induction l with
+  | nil => intro a b _ ha; cases ha
+  | cons q r ih =>
+    intro a b hn ha hb hk
+    simp only [List.map_cons, List.nodup_cons] at hn
+    simp at ha hb
+    rcases ha with rfl | ha <;> rcases hb with rfl | hb
+    · rfl
+    · exact absurd (List.mem_map.mpr ⟨b, hb, hk.symm⟩) hn.1
+    · exact absurd (List.mem_map.mpr ⟨a, ha, hk⟩) hn.1
+    · exact ih hn.2 ha hb hk
+
+private theorem sorted_perm_eq {α : Type} {l1 l2 : List (Key × α)} (hp : l1.Perm l2)
+    (hn : (l1.map (·.1)).Nodup) (s1 : SortedK l1) (s2 : SortedK l2) : l1 = l2 := by
+  refine List.Perm.eq_of_pairwise (le := fun (a b : Key × α) => a.1 ≤ b.1) ?_ s1 s2 hp
+  intro a b ha hb h1 h2
+  exact eq_of_mem_of_key_eq hn ha (hp.mem_iff.mpr hb) (String.le_antisymm h1 h2)
+
+private theorem sortKvs_perm_eq {α : Type} {l1 l2 : List (Key × α)} (hp : l1.Perm l2)
+    (hn : (l1.map (·.1)).Nodup) : sortKvs l1 = sortKvs l2 := by
+  have p1 := sortKvs_perm l1
+  have p2 := sortKvs_perm l2
+  refine sorted_perm_eq ((p1.trans hp).trans p2.symm) ?_ (sortKvs_sorted l1) (sortKvs_sorted l2)
+  exact ((p1.map (·.1)).nodup_iff).mpr hn
+
+private theorem canonKvs_keys (l : List (Key × Tree)) : (canonKvs l).map (·.1) = l.map (·.1) := by
+  rw [canonKvs_eq_map]; simp
+
+mutual
+  private theorem canon_mapEq : ∀ {t1 t2 : Tree}, MapEq t1 t2 → wfTree t2 = true → canon t1 = canon t2
+    | _, _, .leaf l, _ => rfl
+    | _, _, .node (k1 := k1) (k2 := k2) (k2' := k2') hp hk, hw => by
+      simp only [wfTree, Bool.and_eq_true, decide_eq_true_eq] at hw
+      rw [canon_node, canon_node]
+      have h1 : canonKvs k1 = canonKvs k2' :=
+        canonKvs_kvsEq hk (fun p hp' => wfKvs_mem hw.2 p (hp.mem_iff.mpr hp'))
+      have h2 : (canonKvs k2).Perm (canonKvs k2') := by
+        rw [canonKvs_eq_map, canonKvs_eq_map]; exact hp.map _
+      rw [h1, sortKvs_perm_eq h2 (by rw [canonKvs_keys]; exact hw.1)]
+  private theorem canonKvs_kvsEq : ∀ {r1 r2 : List (Key × Tree)}, KvsEq r1 r2 →
+      (∀ p ∈ r2, wfTree p.2 = true) → canonKvs r1 = canonKvs r2
+    | _, _, .nil, _ => rfl
+    | _, _, .cons (k := k) (t2 := t2) ht hr, hw => by
+      simp only [canonKvs]
+      rw [canon_mapEq ht (hw (k, t2) (by simp)), canonKvs_kvsEq hr (fun p hp => hw p (by simp [hp]))]
+end
+
+/-- the declarative notion (equal as finite maps, any insertion orders) implies the computational
+one (identical sorted forms): the content theorems above therefore compose with `eq_order_independent`
+and `hash_order_independent` -/
+theorem mapEq_same_content (t1 t2 : Tree) (h : MapEq t1 t2) (hw : wfTree t2 = true) : SameContent t1 t2 :=
+  canon_mapEq h hw
+
+mutual
+  private def untag : Tree → Tree
+    | .leaf l => .leaf l
+    | .node _ kvs => .node false (untagKvs kvs)
+  private def untagKvs : List (Key × Tree) → List (Key × Tree)
+    | [] => []
+    | (k, t) :: r => (k, untag t) :: untagKvs r
+end
+
+mutual
+  /-- the treedef with the dict/FrozenDict node kinds forgotten -/
+  def untagDef : TDef → TDef
+    | .leaf => .leaf
+    | .node _ kvs => .node false (untagDefKvs kvs)
+  def untagDefKvs : List (Key × TDef) → List (Key × TDef)
+    | [] => []
+    | (k, d) :: r => (k, untagDef d) :: untagDefKvs r
+end
+
+private theorem untagKvs_eq_map (l : List (Key × Tree)) : untagKvs l = l.map (fun q => (q.1, untag q.2)) := by
+  induction l with
+  | nil => rfl
+  | cons q r ih => obtain ⟨k, t⟩ := q; simp [untagKvs, ih]
+
+mutual
+  private theorem canon_eq_untag_sort : ∀ (t : Tree), canon t = untag (sortTree t)
+    | .leaf l => by simp [canon, sortTree, untag]
+    | .node fz kvs => by
+      simp only [canon, sortTree, untag, sortT]
+      rw [untagKvs_eq_map, sortKvs_mapVal, ← untagKvs_eq_map, canonKvs_eq_untag_sort kvs]
+  private theorem canonKvs_eq_untag_sort : ∀ (kvs : List (Key × Tree)), canonKvs kvs = untagKvs (sortTreeKvs kvs)
+    | [] => by simp [canonKvs, sortTreeKvs, untagKvs]
+    | (k, t) :: r => by
+      simp only [canonKvs, sortTreeKvs, untagKvs]
+      rw [canon_eq_untag_sort t, canonKvs_eq_untag_sort r]
+end
+
+mutual
+  private theorem flatten_untag : ∀ (t : Tree),
+      flatten (untag t) = ((flatten t).1, untagDef (flatten t).2)
+    | .leaf l => by simp [flatten, untag, untagDef]
+    | .node fz kvs => by
+      simp only [flatten, untag, untagDef]
+      rw [flattenKvs_untag kvs]
+  private theorem flattenKvs_untag : ∀ (kvs : List (Key × Tree)),
+      flattenKvs (untagKvs kvs) = ((flattenKvs kvs).1, untagDefKvs (flattenKvs kvs).2)
+    | [] => by simp [flattenKvs, untagKvs, untagDefKvs]
+    | (k, t) :: r => by
+      simp only [flattenKvs, untagKvs, untagDefKvs]
+      rw [flatten_untag t, flattenKvs_untag r]
+end
+
+/-- **Equal contents flatten identically**: two values with equal contents built in any insertion
+orders (e.g. two equal FrozenDicts) give the same leaves in the same order and the same key
+structure — tree_flatten sorts the keys — so `tree_map`/`jit` treat them alike. -/
+theorem flatten_order_independent (t1 t2 : Tree) (h : MapEq t1 t2) (hw : wfTree t2 = true) :
+    (flattenS t1).1 = (flattenS t2).1 ∧ untagDef (flattenS t1).2 = untagDef (flattenS t2).2 := by
+  have hc : untag (sortTree t1) = untag (sortTree t2) := by
+    rw [← canon_eq_untag_sort, ← canon_eq_untag_sort]; exact canon_mapEq h hw
+  have h1 := flatten_untag (sortTree t1)
+  have h2 := flatten_untag (sortTree t2)
+  rw [hc] at h1
+  rw [h1] at h2
+  simp only [flattenS]
+  exact ⟨(Prod.mk.inj h2).1, (Prod.mk.inj h2).2⟩
+
+example : (flattenS exT1).1 = [.atom 1, .atom 2, .atom 3] ∧ (flattenS exT2).1 = [.atom 1, .atom 2, .atom 3] := by
+  decide
+
 end Flax.C15
